@@ -328,6 +328,20 @@ class Check:
         print("VIOLATION property=%s replay=%s%s" % (self.pid, path, " no-failing-input-found" if nofail else ""))
         sys.stdout.flush()
 
+    def phase(self, name):
+        """context manager: wall time of a phase of the check, recorded in the evidence (coverage.phase_s)"""
+        ck = self
+
+        class _P:
+            def __enter__(self_inner):
+                self_inner.t = time.time()
+
+            def __exit__(self_inner, *a):
+                d = ck.cov.setdefault("phase_s", {})
+                d[name] = round(d.get(name, 0) + time.time() - self_inner.t, 2)
+                return False
+        return _P()
+
     def count(self, key=None, nontrivial=True):
         self.cov["evaluations"] += 1
         if nontrivial and key is not None:
